@@ -115,6 +115,13 @@ pub fn run(s: &HistScenario) -> RunOut {
             }
             Op::Validate { .. } => observe_now = true,
             // no file I/O with a generic id type; warm-ups are about threads
+            Op::RemoveAbsentMany { n } => {
+                let id = CoarseId { name: "never/added".to_owned() };
+                for _ in 0..*n {
+                    parser.remove_content(id.clone());
+                }
+                pending = true;
+            }
             Op::DiskWrite { .. } | Op::AddFile { .. } | Op::Warmup { .. } => continue,
         }
         max_live = max_live.max(model.len());
